@@ -6,7 +6,7 @@ PAT="${1:-*}"
 fail=0
 for d in /verif/seeded/$PAT/; do
   n=$(basename "$d"); id=${n%%-*}
-  WT=/tmp/wt/rs-$$
+  WT=/tmp/wt/rs-$$-$n
   git -C /repo worktree add -q --detach "$WT" HEAD || exit 2
   if ! ( cd "$WT" && git apply "$d/patch.diff" ) 2>/dev/null; then
     echo "$n: patch no longer applies (the repository moved on)"; git -C /repo worktree remove --force "$WT"; continue
